@@ -188,7 +188,7 @@ FIXED_CUBES = [
     {"nints": 3, "nbands": 4, "nbins": 16, "seed": 1, "nchans": 64, "foff": -2.0, "fch1": 500.0, "tsamp": 1e-3, "nsamples": 200000, "p0": 0.1, "dm0": 30.0},
     {"layout": "F", "nints": 2, "nbands": 3, "nbins": 32, "seed": 2, "nchans": 96, "foff": -1.0, "fch1": 350.0, "tsamp": 64e-6, "nsamples": 4000000, "p0": 0.0337, "dm0": 0.0},
     {"layout": "strided_view", "nints": 4, "nbands": 1, "nbins": 8, "seed": 3, "nchans": 32, "foff": -4.0, "fch1": 800.0, "tsamp": 1e-3, "nsamples": 600000, "p0": 0.5, "dm0": 100.0},
-    {"nints": 1, "nbands": 6, "nbins": 64, "seed": 4, "nchans": 96, "foff": 1.0, "fch1": 300.0, "tsamp": 1e-3, "nsamples": 100000, "p0": 0.0123, "dm0": 12.5},
+    {"nints": 1, "nbands": 6, "nbins": 64, "seed": 4, "nchans": 100, "foff": 1.0, "fch1": 300.0, "tsamp": 1e-3, "nsamples": 100000, "p0": 0.0123, "dm0": 12.5},
     # everything dyadic (p0 = 1 s, tobs = 128 s, 16 bins, 8 sub-integrations): the period targets put the drift of the odd
     # sub-integrations EXACTLY on half a bin, where the rounding rule decides - and must decide the same way whatever
     # was installed before
@@ -221,6 +221,8 @@ def check_enum(case, ctx):
 def strat_random(draw):
     nbands = draw(st.integers(1, 6))
     nchans = nbands * draw(st.integers(4, 16))
+    if nbands > 1 and draw(st.integers(0, 2)) == 0:
+        nchans += draw(st.integers(1, nbands - 1))  # a sub-band count that does not divide the channel count (64 channels in 5 bands)
     foff = draw(st.sampled_from([-1.0, 1.0, -1.0])) * draw(st.sampled_from([1.0, 2.0, 0.5, 4.0]))  # either band orientation
     if abs(foff * nchans) < 50:
         foff = (1.0 if foff > 0 else -1.0) * 50.0 / nchans * 1.5
